@@ -62,7 +62,8 @@ Init == /\ aq = <<Sent>> /\ wh = {} /\ gens = [g \in Ids |-> "none"] /\ kq = {} 
         /\ log = <<>> /\ ret = "ok" /\ bad = "none" /\ lastDt = 0 /\ touched = {}
 
 Cur == [aq |-> aq, wh |-> wh, gens |-> gens, kq |-> kq, timer |-> timer, prom |-> prom, pval |-> pval, pc |-> pc,
-        st |-> st, elapsed |-> elapsed, need |-> need, log |-> <<>>, bad |-> bad, touched |-> {}, abort |-> FALSE]
+        st |-> st, elapsed |-> elapsed, need |-> need, log |-> <<>>, bad |-> bad, touched |-> {}, abort |-> FALSE,
+        fresh |-> {}]        \* coroutines that joined the runnable line during the current call (started / started again)
 Commit(s) == /\ aq' = s.aq /\ wh' = s.wh /\ gens' = s.gens /\ kq' = s.kq /\ timer' = s.timer /\ prom' = s.prom
              /\ pval' = s.pval /\ pc' = s.pc /\ st' = s.st /\ elapsed' = s.elapsed /\ need' = s.need
              /\ log' = s.log /\ bad' = s.bad /\ touched' = s.touched
@@ -72,6 +73,19 @@ StateOf(s, g) == IF s.gens[g] = "none" \/ g \in s.kq THEN "TERMINATED"
                  ELSE IF s.gens[g] = "active" THEN "ACTIVE" ELSE "PAUSED"
 
 Without(q, g) == SelectSeq(q, LAMBDA x : x # g)
+
+(* Where a coroutine that JOINS the runnable line - just started, started again, or woken - is put relative to the ones   *)
+(* already in line is not specified by anything (the property fixes the relative order of those that STAY runnable): the  *)
+(* code appends (deque end, which for a start issued from inside a body is a position in the middle of the ring), the     *)
+(* specification allows every position behind the frame sentinel.  Lenient(q, F): every such arrangement of queue q       *)
+(* (sentinel first) for the set F of joiners; the code's own choice q is one of them.                                      *)
+InsertAt(q, i, g) == SubSeq(q, 1, i - 1) \o <<g>> \o SubSeq(q, i, Len(q))
+RECURSIVE Place(_, _)
+Place(base, F) == IF F = {} THEN {base}
+                  ELSE LET g == CHOOSE x \in F : TRUE IN
+                       UNION {{InsertAt(b, i, g) : i \in 2..Len(b) + 1} : b \in Place(base, F \ {g})}
+Lenient(q, F) == LET Fq == {x \in F : \E i \in 1..Len(q) : q[i] = x} IN
+                 IF Fq = {} \/ Head(q) # Sent THEN {q} ELSE Place(SelectSeq(q, LAMBDA x : x \notin Fq), Fq)
 Flag(s, b) == IF s.bad = "none" THEN [s EXCEPT !.bad = b] ELSE s
 
 \* start(g): <<state', result>> ; runner = the coroutine whose body is executing the call ("none" from outside)
@@ -83,7 +97,7 @@ StartOp(s, g, runner) ==
                    ELSE s
              s2 == [s1 EXCEPT !.aq = Append(@, g), !.gens[g] = "active", !.prom[g] = "live", !.pval[g] = 0,
                               !.st[g] = "ACTIVE", !.elapsed[g] = 0, !.need[g] = 0]
-         IN <<[s2 EXCEPT !.touched = @ \cup {g}], "ok">>
+         IN <<[s2 EXCEPT !.touched = @ \cup {g}, !.fresh = @ \cup {g}], "ok">>
 
 \* kill(g): only marks
 KillOp(s, g) ==
@@ -150,7 +164,8 @@ Run(s, fuel) ==
 Perms(S) == {f \in [1..Cardinality(S) -> S] : \A i, j \in 1..Cardinality(S) : i # j => f[i] # f[j]}
 Sorted(f) == \A i, j \in 1..Len(f) : i < j => f[i][1] <= f[j][1]
 
-Start(g) == /\ LET r == StartOp(Cur, g, "none") IN Commit(r[1]) /\ ret' = r[2]
+Start(g) == /\ LET r == StartOp(Cur, g, "none") IN
+                 \E q \in Lenient(r[1].aq, r[1].fresh) : Commit([r[1] EXCEPT !.aq = q]) /\ ret' = r[2]
             /\ UNCHANGED lastDt
 Kill(g) ==  /\ WithKill
             /\ LET r == KillOp(Cur, g) IN Commit(r[1]) /\ ret' = r[2]
@@ -161,16 +176,20 @@ Process(dt) ==
     /\ lastDt' = dt
     /\ LET s0 == [Cur EXCEPT !.elapsed = [g \in Ids |-> IF st[g] = "PAUSED" \/ gens[g] = "waiting" THEN @[g] + dt ELSE @[g]]]
        IN IF wh = {} THEN LET r == Run([s0 EXCEPT !.aq = Append(Tail(@), Head(@))], 40) IN
-                          /\ Commit(r) /\ ret' = IF r.abort THEN "raised" ELSE "ok"
+                          \E q \in Lenient(r.aq, r.fresh) :
+                              /\ Commit([r EXCEPT !.aq = q]) /\ ret' = IF r.abort THEN "raised" ELSE "ok"
           ELSE LET t1 == timer + dt
                    dueSet == {p \in wh : t1 >= p[1]} IN
                \E due \in {f \in Perms(dueSet) : Sorted(f)} :
                    LET s1 == Wake([s0 EXCEPT !.timer = t1], due)
                        s2 == IF s1.wh = {} THEN [s1 EXCEPT !.timer = 0] ELSE s1
-                       s3 == [s2 EXCEPT !.aq = Append(Tail(@), Head(@))]        \* rotate(-1): the sentinel goes last
-                       r == Run(s3, 40)
-                   IN /\ Commit(r)
-                      /\ ret' = IF r.abort THEN "raised" ELSE "ok"
+                       woken == {p[2] : p \in dueSet}
+                   IN \E qw \in Lenient(s2.aq, woken) :                          \* the woken ones join the line
+                       LET s3 == [s2 EXCEPT !.aq = Append(Tail(qw), Head(qw))]     \* rotate(-1): the sentinel goes last
+                           r == Run(s3, 40)
+                       IN \E q \in Lenient(r.aq, r.fresh) :
+                              /\ Commit([r EXCEPT !.aq = q])
+                              /\ ret' = IF r.abort THEN "raised" ELSE "ok"
 
 Next == \/ (\E g \in Ids : Start(g) \/ Kill(g))
         \/ (\E dt \in Dts : Process(dt))
